@@ -188,8 +188,9 @@ def mkcase(rng, lat, lon, order=None, rx=None):
             rlat, rlon = lat, lon
         rx = [max(-90.0, min(90.0, rlat)), rlon]
     o = order or rng.choice(("e", "o", "="))
-    base = rng.choice((0, 1446332400, rng.randrange(0, 2**31)))
-    gap = rng.choice((1, 2, 5, 9, 0.5, 0.4, 1, 2, 30, 50, 3600, 90000))   # the statement sets no limit on the age of the pair
+    base = rng.choice((0, 1446332400, rng.randrange(0, 2**31), 1000, rng.randrange(0, 200000)))
+    # the statement sets no limit on the age of the pair: days apart too (a small-origin clock, both stamps inside one week)
+    gap = rng.choice((1, 2, 5, 9, 0.5, 0.4, 1, 2, 30, 50, 3600, 90000, 302401, 399000, 604000))
     te, to = (base + gap, base) if o == "e" else (base, base + gap) if o == "o" else (base, base)
     c = _mk(rng, locals())
     if c["dt"] is False and rng.random() < 0.12:
